@@ -276,7 +276,7 @@ func c18EndToEnd(c *Ctx) {
 
 func init() {
 	addCheck(&Check{ID: "C18", Level: "exploration",
-		Rule: "all route tables of <=4 (thorough <=5) entries over a 12-pattern universe x 14 hosts, each lookup executed under every map iteration order (all permutations, explorer choice); non-trivial = at least one entry matches; plus port rule table and end-to-end lookups by To host",
+		Rule:   "all route tables of <=4 (thorough <=5) entries over a 12-pattern universe x 14 hosts, each lookup executed under every map iteration order (all permutations, explorer choice); non-trivial = at least one entry matches; plus port rule table and end-to-end lookups by To host",
 		Assume: []string{"Go's regexp package is trusted for nothing: the reference matcher is an independent recursive wildcard matcher"},
 		Run:    c18Run,
 		Replay: func(c *Ctx, raw json.RawMessage) string {
